@@ -63,6 +63,9 @@ type c19cfg struct {
 	FailAt int // -1 none
 	Auth   bool
 	Hook   bool
+	// Rests: the server has every timeout this tree offers set to 25 ms (exported duration fields; none on the
+	// pinned tree) and the client rests for several such periods before its first command
+	Rests bool
 }
 
 // c19lost: a callback whose context does not lead back to its connection (the remote address in it is not
@@ -260,6 +263,21 @@ func (ch c19) Run(c *core.Ctx) {
 				ch.runConn(c, env, cfg, ending, rng)
 			}
 		}
+		// the same on a server with its timeouts set short, for clients that rest before their first command:
+		// the context a command gets is live while the command runs, however old the connection is
+		if ci%5 == 2 && cfg.FailAt < 0 && !cfg.Auth {
+			rcfg := cfg
+			rcfg.Rests = true
+			hs.ShortTimeouts = true
+			renv := ch.server(rcfg)
+			hs.ShortTimeouts = false
+			for e := 0; e < 2; e++ {
+				if c.Begin(ci*10000+9500+e) && c.NViol() < 10 {
+					ch.restConn(c, renv, rcfg, e)
+				}
+			}
+			renv.Stop()
+		}
 		// several connections at the same time on this server (accepted within the same moment): every
 		// callback of a connection sees that connection's context - its parameters, its address, its type map
 		if ci%3 == 0 && cfg.FailAt < 0 && c.Begin(ci*10000+9000) && c.NViol() < 10 {
@@ -275,6 +293,35 @@ func (ch c19) Run(c *core.Ctx) {
 			c.Count("connections_served_at_the_same_time", 8)
 		}
 		env.Stop()
+	}
+}
+
+// restConn: a connection on a server with short timeouts starts up in one step (no authentication: the
+// server never waits for the client), rests for several timeout periods, then sends three Queries and a
+// Terminate in one segment. A server with an idle or start-up timeout may have ended the connection by
+// then - that is its business and nothing is judged; for every callback that does run, the context it
+// received is live while it runs and carries what the session middlewares put in.
+func (ch c19) restConn(c *core.Ctx, env *hs.Env, cfg c19cfg, variant int) {
+	st := &c19conn{app: "rests"}
+	conn := env.Dial(st)
+	user, db := st.who()
+	conn.Send(pg.Startup([][2]string{{"options", ""}, {"user", user}, {"application_name", st.app}, {"database", db}}))
+	time.Sleep(90 * time.Millisecond) // detection power only: whatever the start-up armed has passed
+	in := append(append(pg.Query("after the rest"), pg.Query("several after the rest")...), pg.Query("once more")...)
+	if variant == 1 {
+		in = append(append(pg.Parse("", "after the rest", nil), pg.Bind("", "", nil, nil, nil)...), append(pg.Execute("", 0), pg.Sync()...)...)
+	}
+	conn.Send(append(in, pg.Terminate()...))
+	conn.CloseWrite()
+	if !conn.WaitClosed() {
+		c.Inconclusive("C19 resting connection did not close")
+		return
+	}
+	c.Count("connections_resting_on_a_server_with_short_timeouts", 1)
+	c.Count("callbacks_after_a_rest", int64(st.parses+st.execs))
+	c.Eval(fmt.Sprintf("%+v rest %d", cfg, variant), true)
+	if len(st.problems) > 0 {
+		c.Violate("context", st.problems[0]+" (a connection older than the server's timeouts)", fmt.Sprint(st.problems), map[string]any{"config": fmt.Sprintf("%+v", cfg)})
 	}
 }
 
